@@ -482,9 +482,16 @@ def opChmod (env : Env) (st : St) (parent : Handle) (name : Name) (mode : Nat) :
 
 def SFile.toNode (f : SFile) : Node := .file f.data f.perm f.mtime f.ino
 
+/-- `transitionCopyPreemptionInterval * transitionCopyBufferSize`: the number of
+bytes the cross-device copy writes before it first polls for cancellation. -/
+def copyPreemptionBytes : Nat :=
+  Mutagen.Facts.transitionCopyPreemptionInterval * Mutagen.Facts.transitionCopyBufferSize
+
 /-- transition.go:614-688: the cross-device fallback of
-`findAndMoveStagedFileIntoPlace` (the copy is never preempted: the writer
-checks for cancellation every 1024 writes of 32 KiB). -/
+`findAndMoveStagedFileIntoPlace`. The copy is preempted (and the partial
+temporary removed) when the context was cancelled before the copy and the
+staged file is larger than `copyPreemptionBytes`; read errors on the staged
+file are not modelled. -/
 def crossDevice (env : Env) (st : St) (key : Path × List UInt8) (sf : SFile) (mode : Nat)
     (parent : Handle) (name : Name) (replace : Bool) : Option String × St :=
   -- CreateTemporaryFile(pattern)
@@ -494,6 +501,14 @@ def crossDevice (env : Env) (st : St) (key : Path × List UInt8) (sf : SFile) (m
   | none => (some "mktemp", st)
   | some cs =>
     let tmp := env.tmpName st.tmpCount (akeys cs)
+    -- io.CopyBuffer through the preemptable writer: cancellation is polled at
+    -- write number interval+1, i.e. only for files larger than interval * buffer
+    -- size, and only a cancellation that happened before the copy can be seen.
+    if st.cancelled && decide (sf.data.length > copyPreemptionBytes) then
+      match fsPut st.fs parent tmp (.file (sf.data.take copyPreemptionBytes) 0o600 0 0) false with
+      | none => (some "mktemp", st)
+      | some fs => (some "cancelled", (opUnlink env { st with fs := fs, tmpCount := st.tmpCount + 1 } parent tmp).2)
+    else
     match fsPut st.fs parent tmp (.file sf.data 0o600 0 0) false with
     | none => (some "mktemp", st)
     | some fs =>
